@@ -245,12 +245,20 @@ pub fn run(a: &HashMap<String, String>) -> (usize, usize) {
         for kinds in [['n', 'n', 'm'], ['n', 'm', 'n']].iter() {
             let k = *kinds;
             let before: Vec<_> = (0..3).map(|i| fstat_of(i)).collect();
+            // keep private duplicates: if the library closes our own fd 1/2 we still want to report it
+            let saved: Vec<i32> = (0..3).map(|i| unsafe { libc::fcntl(i, libc::F_DUPFD_CLOEXEC, 100) }).collect();
             let f = focus.clone();
             let v = std::thread::spawn(move || one_case(k, false, &f, 0, 0)).join().unwrap_or_else(|_| vec!["ENV/thread-panicked".to_string()]);
             let mut v = v;
             let after: Vec<_> = (0..3).map(|i| fstat_of(i)).collect();
             if after != before {
                 v.push("C05/parent-std-untouched: after a spawning thread exited, one of the parent's own standard streams is closed or changed".to_string());
+                for i in 0..3 {
+                    unsafe { libc::dup2(saved[i], i as i32) };
+                }
+            }
+            for fd in saved {
+                unsafe { libc::close(fd) };
             }
             v.retain(|m| focus.is_empty() || m.starts_with(&focus) || m.starts_with("ENV/"));
             cases += 1;
